@@ -4,6 +4,7 @@ import (
 	"context"
 	"encoding/json"
 	"fmt"
+	"io"
 	"net"
 	"net/http"
 	"strings"
@@ -30,6 +31,10 @@ type c17Case struct {
 	Texts  []int  `json:"texts,omitempty"` // Texts[k] > 0: a TEXT frame of that many bytes goes out before binary frame k (never part of the stream)
 	Sizes  []int  `json:"sizes,omitempty"`
 	Proto  string `json:"proto,omitempty"`
+	// kind "out": the broker side writes Out data frames of OutSize bytes while the client sends PINGs all the time (the
+	// PONGs are written by the broker's reading side): what the client receives is a sequence of whole frames
+	Out     int `json:"out,omitempty"`
+	OutSize int `json:"outsize,omitempty"`
 }
 
 type c17Read struct {
@@ -39,15 +44,19 @@ type c17Read struct {
 }
 
 type c17Obs struct {
+	OutBytes int       `json:"outbytes,omitempty"` // kind "out": payload bytes received in order with the right content
+	OutPongs int       `json:"outpongs,omitempty"`
+	OutBad   string    `json:"outbad,omitempty"`
 	Reads    []c17Read `json:"reads,omitempty"`
 	Accepted bool      `json:"accepted,omitempty"`
 	Err      string    `json:"err,omitempty"`
 }
 
 type c17Session struct {
-	sizes  []int
-	report chan c17Read
-	done   chan struct{}
+	out, outSize int
+	sizes        []int
+	report       chan c17Read
+	done         chan struct{}
 }
 
 type c17Prop struct {
@@ -78,6 +87,35 @@ func (p *c17Prop) OnConnection(c transport.Conn, _ *auth.Manager) error {
 	s := <-p.pending
 	defer close(s.done)
 	defer c.Close()
+	if s.out > 0 {
+		// the reading side (where the PINGs are answered) and the writing side, as the connection's two goroutines
+		rd := make(chan struct{})
+		go func() {
+			defer close(rd)
+			buf := make([]byte, 64)
+			for {
+				if _, err := c.Read(buf); err != nil {
+					return
+				}
+			}
+		}()
+		pos := 0
+		for k := 0; k < s.out; k++ {
+			buf := make([]byte, s.outSize)
+			for j := range buf {
+				buf[j] = byte((pos + j) % 251)
+			}
+			pos += len(buf)
+			if _, err := c.Write(buf); err != nil {
+				break
+			}
+		}
+		select {
+		case <-rd:
+		case <-time.After(5 * time.Second):
+		}
+		return nil
+	}
 	for _, b := range s.sizes {
 		buf := make([]byte, b)
 		n, err := c.Read(buf)
@@ -139,6 +177,9 @@ var c17Protos = []string{"mqttv3x1", "mqttv3.1x1", "mqttv5a0", "mqttV3", "", "mq
 func (p *c17Prop) Gen(r *Rng, i int, tier string) interface{} {
 	if i%10 == 9 {
 		return &c17Case{Kind: "handshake", Proto: c17Protos[r.Intn(len(c17Protos))]}
+	}
+	if i%50 == 27 {
+		return &c17Case{Kind: "out", Out: 500 + r.Intn(1500), OutSize: []int{1, 100, 200, 5000}[r.Intn(4)]}
 	}
 	bs := []int{1, 2, 3, 7, 16, 64}
 	b := bs[r.Intn(len(bs))]
@@ -217,6 +258,9 @@ func (p *c17Prop) Run(ci interface{}) interface{} {
 		return p.runHandshake(c)
 	}
 	obs := &c17Obs{}
+	if c.Kind == "out" {
+		return p.runOut(c)
+	}
 	s := &c17Session{sizes: c.Sizes, report: make(chan c17Read, 1024), done: make(chan struct{})}
 	p.pending <- s
 	d := gws.Dialer{Protocols: []string{"mqtt"}, Timeout: 5 * time.Second}
@@ -297,6 +341,79 @@ func (p *c17Prop) Run(ci interface{}) interface{} {
 	return obs
 }
 
+func (p *c17Prop) runOut(c *c17Case) interface{} {
+	obs := &c17Obs{}
+	s := &c17Session{out: c.Out, outSize: c.OutSize, report: make(chan c17Read, 1), done: make(chan struct{})}
+	p.pending <- s
+	d := gws.Dialer{Protocols: []string{"mqtt"}, Timeout: 5 * time.Second}
+	conn, br, _, err := d.Dial(context.Background(), "ws://127.0.0.1:"+p.port+"/")
+	if err != nil {
+		<-p.pending
+		obs.Err = "dial: " + err.Error()
+		return obs
+	}
+	var rd io.Reader = conn
+	if br != nil {
+		rd = br // what the server sent right behind its handshake response is in the dialer's buffer
+	}
+	stop := make(chan struct{})
+	var wmu sync.Mutex
+	go func() {
+		for {
+			select {
+			case <-stop:
+				return
+			default:
+			}
+			wmu.Lock()
+			err := wsutil.WriteClientMessage(conn, gws.OpPing, nil)
+			wmu.Unlock()
+			if err != nil {
+				return
+			}
+		}
+	}()
+	want := c.Out * c.OutSize
+	_ = conn.SetReadDeadline(time.Now().Add(20 * time.Second))
+	for obs.OutBytes < want && obs.OutBad == "" {
+		h, err := gws.ReadHeader(rd)
+		if err != nil {
+			obs.OutBad = "read header: " + err.Error()
+			break
+		}
+		if h.Rsv != 0 || h.Masked || h.Length > int64(c.OutSize) {
+			obs.OutBad = fmt.Sprintf("not a frame header the broker writes: %+v after %d bytes", h, obs.OutBytes)
+			break
+		}
+		pl := make([]byte, h.Length)
+		if _, err := io.ReadFull(rd, pl); err != nil {
+			obs.OutBad = "read payload: " + err.Error()
+			break
+		}
+		switch h.OpCode {
+		case gws.OpPong:
+			obs.OutPongs++
+		case gws.OpBinary:
+			if !h.Fin || int(h.Length) != c.OutSize {
+				obs.OutBad = fmt.Sprintf("data frame of %d bytes (fin=%v), expected %d", h.Length, h.Fin, c.OutSize)
+			}
+			for j, b := range pl {
+				if b != byte((obs.OutBytes+j)%251) {
+					obs.OutBad = fmt.Sprintf("payload byte %d is %d", obs.OutBytes+j, b)
+					break
+				}
+			}
+			obs.OutBytes += len(pl)
+		default:
+			obs.OutBad = fmt.Sprintf("frame with opcode %d after %d bytes", h.OpCode, obs.OutBytes)
+		}
+	}
+	close(stop)
+	conn.Close()
+	<-s.done
+	return obs
+}
+
 // writeFragments sends payload as one binary MESSAGE in parts frames: a binary frame with FIN=0, continuation frames,
 // the last with FIN=1 (RFC 6455 5.4); the split points are spread evenly, a part may be empty
 func writeFragments(conn net.Conn, payload []byte, parts int) error {
@@ -351,6 +468,9 @@ func (p *c17Prop) Coq(ci interface{}, oi interface{}) string {
 	if c.Kind == "handshake" {
 		return fmt.Sprintf("(CHandshake %s %s)", cBytes([]byte(c.Proto)), cBool(o.Accepted))
 	}
+	if c.Kind == "out" {
+		return fmt.Sprintf("(COut %s %s %s %s)", cNat(c.Out), cNat(c.OutSize), cNat(o.OutBytes), cBool(o.OutBad == "" && o.Err == ""))
+	}
 	reads := make([]string, len(o.Reads))
 	for i, r := range o.Reads {
 		switch r.Kind {
@@ -376,6 +496,9 @@ func (p *c17Prop) Class(ci interface{}, oi interface{}) (string, bool) {
 	c := ci.(*c17Case)
 	if c.Kind == "handshake" {
 		return "handshake", true
+	}
+	if c.Kind == "out" {
+		return "outbound-under-pings", true
 	}
 	big, exact := false, false
 	for i, f := range c.Frames {
